@@ -116,6 +116,41 @@ def check_only_the_exit_closes(check, an: Analysis, rule: str, receivers):
                        analysed=n_paths)
 
 
+def check_scope_state_private(check, an: Analysis, rule: str):
+    """whether a scope can still be interrupted, and the signals it owns, are the scope's own
+    business: only methods of the scope classes call `_disable_interrupts` or write
+    `_interruptable` / `_cancel_self` (a caller that switches them "for a moment" revokes the
+    one signal that aborts the block when a child fails)"""
+    scope_classes = set(_scope.scope_receivers(an))
+    n, bad = 0, None
+    for fn in an.p.functions.values():
+        if isinstance(fn.node, ast.Lambda):
+            continue
+        owner = an.p.enclosing_self_class(fn)
+        inside = owner is not None and (owner.qn in scope_classes or any(
+            entry in scope_classes for entry in owner.mro))
+        for node in rules._walk_own(fn.node):
+            hit = None
+            if isinstance(node, ast.Call) and isinstance(node.func, ast.Attribute) and \
+                    node.func.attr in ('_disable_interrupts', '_close_scope',
+                                       '_close_children', '_close_volatile'):
+                hit = node
+            elif isinstance(node, ast.Attribute) and isinstance(node.ctx,
+                                                                (ast.Store, ast.Del)) \
+                    and node.attr in ('_interruptable', '_cancel_self', '_interrupt'):
+                hit = node
+            if hit is not None:
+                n += 1
+                if not inside:
+                    bad = bad or (fn, hit)
+    check.instance(rule, 'scope-state:own-methods-only', bad is None and n >= 4,
+                   '%s:%d' % (bad[0].module.relpath, bad[1].lineno) if bad else
+                   where_fn(an.method(SCOPE, '__aexit__')),
+                   'the closing steps are called and the interrupt state is written by '
+                   'methods of the scope classes only (%d sites%s)' % (
+                       n, '' if bad is None else '; also by %s' % short(bad[0].qn)))
+
+
 def check_close_on_every_exit(check, an: Analysis, rule: str, receivers):
     """every way out of Scope.__aexit__ runs the closing sequence exactly once"""
     for recv in receivers:
@@ -262,6 +297,7 @@ def run(check, an: Analysis):
     _scope.check_await_children_progress(check, an, 'E')
     # ---- M ------------------------------------------------------------------
     check_only_the_exit_closes(check, an, 'M', receivers)
+    check_scope_state_private(check, an, 'M')
     check_copy_iteration(check, an, 'M')
     check.floor('M', 5)
     # ---- R ------------------------------------------------------------------
@@ -396,6 +432,15 @@ def check_task_close(check, an: Analysis, rule: str):
                            path=rules.path_lines(path))
             continue
         not_started = started_test[0]['value']
+        # the payload is only ever closed by the runner that wraps it (inside the handlers
+        # that turn a failing clean-up into a recorded failure): __close__ itself does not
+        # touch it
+        touched = [e for i, e in enumerate(path.events) if e.kind in ('call', 'enter')
+                   and isinstance(e.node, ast.Call)
+                   and 'self.payload' in rules.value_text(path, i, e.node)]
+        check.instance(rule, '__close__:payload-left-to-the-runner', not touched,
+                       where_fn(close.fn), 'no call of __close__ involves the payload',
+                       path=rules.path_lines(path) if touched else None, nontrivial=False)
         if not_started:
             ok = len(dones) == 1 and not closes
             seen.add('unstarted')
